@@ -37,6 +37,13 @@ MUTANTS = [
     M("S/L percentage divided by 10", (CONV, "    if v.endswith(\"%\"):\n        return float(v[:-1]) / 100.0\n    x = float(v)", "    if v.endswith(\"%\"):\n        return float(v[:-1]) / 10.0\n    x = float(v)")),
 ]
 
+MUTANTS += [
+    M("sweep: ints 0 and 1 in a tuple are taken as normalised floats ((1, 1, 1) -> white)",
+      (PAR, "                        if isinstance(c, float) and 0.0 <= c <= 1.0:", "                        if isinstance(c, float) or 0.0 <= c <= 1.0:")),
+    M("sweep: rgb() clamp upper bound 256", (PAR, "                    max(0, min(255, r)),", "                    max(0, min(256, r)),")),
+    M("seed: hue normalised with fmod (keeps the sign of negative hues)", (CONV, "    return float(v.strip()) % 360\n", "    return math.fmod(float(v.strip()), 360.0)\n")),
+]
+
 BENIGN = [
     M("table reordered and upper-case hex digits",
       (NAM, "    \"aliceblue\": \"#f0f8ff\",\n    \"antiquewhite\": \"#faebd7\",\n", "    \"antiquewhite\": \"#FAEBD7\",\n    \"aliceblue\": \"#F0F8FF\",\n")),
